@@ -998,8 +998,16 @@ func callBuiltin(caller *frame, callpos token.Pos, fn *ssa.Builtin, args []value
 			// append([]byte, ...string) []byte
 			return appendLogged(args[0].([]value), strBytes(args[1]))
 		}
-		// append([]T, ...[]T) []T
-		return appendLogged(args[0].([]value), args[1].([]value))
+		// append([]T, ...[]T) []T  (struct/array elements are copied: cells must not share storage)
+		src := args[1].([]value)
+		if st, ok := fn.Type().(*types.Signature).Params().At(0).Type().Underlying().(*types.Slice); ok && needsCopy(st.Elem()) {
+			cp := make([]value, len(src))
+			for k := range src {
+				cp[k] = copyVal(st.Elem(), src[k])
+			}
+			src = cp
+		}
+		return appendLogged(args[0].([]value), src)
 
 	case "copy": // copy([]T, []T) int or copy([]byte, string) int
 		src := args[1]
@@ -1007,6 +1015,21 @@ func callBuiltin(caller *frame, callpos token.Pos, fn *ssa.Builtin, args []value
 			src = strBytes(src)
 		}
 		dst := args[0].([]value)
+		if st, ok := fn.Type().(*types.Signature).Params().At(0).Type().Underlying().(*types.Slice); ok && needsCopy(st.Elem()) {
+			sv := src.([]value)
+			n := len(dst)
+			if len(sv) < n {
+				n = len(sv)
+			}
+			tmp := make([]value, n)
+			for k := 0; k < n; k++ {
+				tmp[k] = copyVal(st.Elem(), sv[k])
+			}
+			for k := 0; k < n; k++ {
+				store(st.Elem(), &dst[k], tmp[k])
+			}
+			return n
+		}
 		if theInterp.logging {
 			n := len(dst)
 			if len(src.([]value)) < n {
@@ -1152,6 +1175,14 @@ func callBuiltin(caller *frame, callpos token.Pos, fn *ssa.Builtin, args []value
 	}
 
 	panic("unknown built-in: " + fn.Name())
+}
+
+func needsCopy(t types.Type) bool {
+	switch t.Underlying().(type) {
+	case *types.Struct, *types.Array:
+		return true
+	}
+	return false
 }
 
 // appendLogged appends like the built-in, recording overwritten cells of a shared backing array.
